@@ -73,6 +73,47 @@ def events_of(d):
     return kinds
 
 
+def recycled_define_units(rng):
+    """A server thread evaluates, by name, globals that main defines while the thread is alive.  Main first shadows
+    global slots by redefining a few names many times (the slot recycler runs once enough shadowed slots have
+    accumulated), so that later definitions of FRESH names land in recycled slots and not at the end of the global
+    table; after every definition the server must see the new name with its value ('a definition completed by one
+    thread is seen by every thread afterwards')."""
+    units = [
+        "(define rq (channels/new)) (define rq-s (channels-sender rq)) (define rq-r (channels-receiver rq))\n"
+        "(define rp (channels/new)) (define rp-s (channels-sender rp)) (define rp-r (channels-receiver rp))\n"
+        "(define (c15-server) (let ([m (channel/recv rq-r)]) (if (eq? m 'stop) 'stopped (begin (channel/send rp-s "
+        "(with-handler (lambda (e) 'unbound) (eval m))) (c15-server)))))",
+        "(define c15-srv (spawn-native-thread c15-server))",
+    ]
+    expect = {}
+    nv = rng.randint(3, 7)
+    rounds = rng.randint(6, 10)
+    for rnd in range(rounds):
+        for k in range(rng.randint(25, 60)):
+            units.append("(define c15-victim-%d %d)" % (k % nv, rnd * 100 + k))
+            expect["c15-victim-%d" % (k % nv)] = rnd * 100 + k
+        fresh = "c15-fresh-%d" % rnd
+        units.append("(define %s %d)" % (fresh, 1000 + rnd))
+        expect[fresh] = 1000 + rnd
+        for name in (fresh, "c15-victim-%d" % rng.randrange(nv), "c15-fresh-%d" % rng.randrange(rnd + 1)):
+            units.append("(begin (channel/send rq-s '%s) (list '%s (channel/recv rp-r) %d))" % (name, name, expect[name]))
+    units.append("(begin (channel/send rq-s 'stop) (thread-join! c15-srv))")
+    return units
+
+
+def recycled_define_failures(d):
+    """-> list of 'name: thread saw X, defined value Y' for the answers of the server thread"""
+    import re
+    out = []
+    for r in d.get("res") or []:
+        for v in (r.get("ok") or []):
+            m = re.match(r"^\('\"(c15-[a-z]+-\d+)\" (\S+) I(-?\d+)\)$", v)
+            if m and m.group(2) != "I" + m.group(3):
+                out.append("%s: the thread saw %s, the completed definition is %s" % (m.group(1), m.group(2), m.group(3)))
+    return out
+
+
 def run(ck):
     ck.cov["trusted_base"] = [
         "Coq 8.16.1 kernel, coqc; vm_compute for the witnesses",
@@ -108,6 +149,10 @@ def run(ck):
         for _ in range(reps):
             jobs.append(("exit-window", EXIT_WINDOW_UNITS, jit, "sp_exit_checked:300:20,poll_exit_checked:300:2,scan:400"))
             jobs.append(("spawn-window", SPAWN_WINDOW_UNITS, jit, "spawn_unreg:30000"))
+    # (1b) definitions that land in recycled global slots while another thread is alive
+    for jit in (True, False):
+        for _ in range(1 if quick else 6):
+            jobs.append(("recycled-define", recycled_define_units(ck.rng), jit, None))
     # (2) generated programs, windows of the handshake's ordinary steps widened (not the two known windows)
     ncases = 10 if quick else 60
     specs = [gen_spec(ck.rng, ck.rng.choice([2, 3, 4, 6, 8]), 1) for _ in range(ncases)]
@@ -159,6 +204,18 @@ def run(ck):
                     confirmed["spawn-window"] += 1
             elif stale is None:
                 ck.failing_input("spawn-window program failed: %s" % json.dumps(last)[:200], dict(base, kind="error", units=payload), tag="err")
+        if kind == "recycled-define":
+            fails = recycled_define_failures(d)
+            answered = sum(1 for r in d.get("res") or [] for v in (r.get("ok") or []) if v.startswith("('\"c15-"))
+            ck.cov["recycled_define_answers"] = ck.cov.get("recycled_define_answers", 0) + answered
+            if answered == 0:
+                ck.failing_input("recycled-define program produced no answer: %s" % json.dumps((d.get("res") or [None])[-1])[:200],
+                                 dict(base, kind="error", units=payload), tag="err")
+            for f in fails[:3]:
+                ck.failing_input("definition not seen by a live thread (JIT %s): %s" % ("on" if jit else "off", f),
+                                 dict(base, kind="define-not-visible", fail=f, units=payload), tag="vis")
+            if not fails and answered:
+                distinct.add(("recycled-define", jit, answered))
         if kind == "generated":
             sp = payload[0]
             fails = oracle(sp, d)
